@@ -47,7 +47,7 @@ def main():
     if args.cmd == "replay":
         with open(args.path) as f:
             doc = json.load(f)
-        vs = runner.replay_cfg(doc["property"], doc["cfg"])
+        vs = runner.replay_cfg(doc["property"], doc["cfg"], doc.get("prelude"))
         want = doc["violation"]
         hit = runner.same_violation(vs, want)
         if args.trace:
